@@ -546,6 +546,14 @@ def str_cases(draw):
         if draw(st.booleans()):
             c['sep'] = draw(st.sampled_from(['a', ' ', '-', 'ab', 'b', '',
                                              '  ', 'é']))
+        if draw(st.integers(0, 3)) == 0:
+            # a separator that overlaps itself in the subject: scanning from
+            # the left and from the right cut at different places
+            c['sep'], body = draw(st.sampled_from(
+                [('aa', 'a'), ('aba', 'ab'), ('  ', ' '), ('--', '-'),
+                 ('abab', 'ab')]))
+            c['s'] = draw(st.sampled_from(['', 'c', 'b'])) + body * draw(
+                st.integers(2, 5)) + draw(st.sampled_from(['', 'a', 'c']))
         if draw(st.booleans()):
             c['max'] = draw(count)
     elif fn == 'join':
